@@ -86,6 +86,8 @@ def contexts():
     C.append(("patternProperties", lambda x, d2: _d2({"patternProperties": {"^a": x}}, d2), lambda t: t.patternProperties["^a"], True))
     C.append(("anyOf-branch", lambda x, d2: _d2({"anyOf": [x, {"type": "null"}]}, d2), lambda t: t.elements[0], True))
     C.append(("dependencies", lambda x, d2: _d2({"dependencies": {"k": x}}, d2), lambda t: t.dependencies["k"], True))
+    for comp in ("allOf", "anyOf", "oneOf"):
+        C.append(("ref-shared-%s" % comp, lambda x, d2, comp=comp: _d2({"type": "object", "title": "Ctx", "properties": {"q": {"$ref": "#/definitions/s"}, "p": {comp: [{"$ref": "#/definitions/s"}], "default": x.get("default") if isinstance(x, dict) else None}, "r": {"$ref": "#/definitions/s"}}, "definitions": {"s": {"type": "string", "minLength": 1}}}, d2), lambda t: _prop(t, "p"), True))
     C.append(("property.of.property", lambda x, d2: _d2({"type": "object", "title": "Ctx", "properties": {"o": {"type": "object", "title": "Mid", "properties": {"p": x}, "default": {"p": 1}}}}, d2), lambda t: _prop(_prop(t, "o"), "p"), True))
     return C
 
@@ -181,6 +183,12 @@ def check_default_case(st, cname, place, find, iname, make, d, d2, rank):
         return
     if isinstance(got, NotPassed) or not impl.strict_eq(got, d):
         st.violation("default-lost-or-altered:%s" % ("falsy" if not d else "truthy"), "%s/%s: schema declares default %r at the position, parsed element carries %r" % (cname, iname, d, got), {**case, "got": repr(got)}, rank)
+    # (a') a default declared at one position must not appear on an unrelated element (e.g. a shared definition)
+    if cname.startswith("ref-shared"):
+        for other in ("q", "r"):
+            od = getattr(_prop(tree, other), "default", NP)
+            if not isinstance(od, NotPassed):
+                st.violation("default-leaked-to-shared-definition", "%s/%s: default %r declared on property p also appears on property %s which only references the shared definition" % (cname, iname, d, other), case, rank)
     # (b) nothing dropped / invented / duplicated anywhere
     have = tree_defaults(tree)
     if multiset(declared) != multiset([v for _, v in have]):
